@@ -9,6 +9,8 @@ from .vals import SymSeq, Piece, Fill, SymStr, SymChar, ZStr, NumStr, Term, blob
 
 def reset_yowsup():
     """process-wide state that would make re-execution non-deterministic"""
+    from . import state
+    state.restore()
     m = sys.modules.get("yowsup.structs.protocolentity")
     if m is not None:
         m.ProtocolEntity._ProtocolEntity__ID_GEN = 0
